@@ -22,7 +22,7 @@ TRANSITION_MEASURE = '(target kind, hash seed class, history shape (kinds, same-
 COMPONENTS = {'ProofExp.serialize, CountingInterpreter, MemoizingInterpreter, Serializing/PrettyPrinting interpreters, metamath translate/converter/parser': 'real, fresh interpreter per execution (setarch -R)',
               'file system': 'model (SimFS with write faults)'}
 ASSUMPTIONS = ['translate.main itself (argparse/pathlib shell) is replaced by an equivalent in-memory skeleton; the real main is exercised by C16 on a sample']
-PROBES = ['history_len_ge2', 'failed_write_in_history', 'same_object_in_history', 'hashseed_nonzero', 'mm_target', 'module_target', 'shipped_target', 'mm_target_mvars_ge2', 'pretty_compared']
+PROBES = ['history_len_ge2', 'failed_write_in_history', 'same_object_in_history', 'hashseed_nonzero', 'mm_target', 'module_target', 'shipped_target', 'mm_target_mvars_ge2', 'pretty_compared', 'k_target']
 SHIPPED_MODS = ['Propositional', 'SmallTheory', 'Substitution']
 SHIPPED_MM = ['impreflex-compressed-goal.mm']
 
@@ -33,8 +33,10 @@ def generate(rng, tier):
         target = {'kind': 'module', 'compose': rng.getrandbits(48)}
     elif r < 0.55:
         target = {'kind': 'module', 'shipped': rng.choice(SHIPPED_MODS)}
-    elif r < 0.93:
+    elif r < 0.83:
         target = {'kind': 'mm', 'gen_seed': rng.getrandbits(40)}
+    elif r < 0.93:
+        target = {'kind': 'k', 'k_seed': rng.getrandbits(40)}
     else:
         target = {'kind': 'mm', 'shipped_mm': rng.choice(SHIPPED_MM)}
     execs = []
@@ -80,6 +82,12 @@ def resolve(spec, ctx, cache):
         layouts, _, _, info = _c16.build({'gen_seed': spec['gen_seed']})
         lay = layouts[spec['gen_seed'] % len(layouts)]
         out = {'kind': 'mm', 'text': lay['text'], 'target': 'goal', 'tmv': info['tmv']}
+    elif spec['kind'] == 'k' and 'k_seed' in spec:
+        import random as _r
+        from . import c20 as _c20
+        ksc = _c20.generate(_r.Random(spec['k_seed']), 'quick')
+        ksc['faults'] = []
+        out = {'kind': 'k', 'scenario': ksc}
     elif spec['kind'] == 'mm' and 'shipped_mm' in spec:
         import os
         from ..paths import REPO
@@ -92,7 +100,7 @@ def execute(sc, ctx):
     out = Outcome()
     cache = {}
     CAP[0] = 20000 if sc.get('_tier') == 'thorough' else 2500
-    target = sc['target'] if ('recipe' in sc['target'] or 'text' in sc['target']) else resolve(sc['target'], ctx, cache)
+    target = sc['target'] if ('recipe' in sc['target'] or 'text' in sc['target'] or 'scenario' in sc['target']) else resolve(sc['target'], ctx, cache)
     if target is None:
         out.refused = True
         out.event('target could not be composed')
@@ -109,8 +117,8 @@ def execute(sc, ctx):
                     hist.append(dict(h, spec=sp))
         execs.append(dict(e, history=hist))
     out.explicit = {'target': target, 'optimize': sc['optimize'], 'execs': execs}
-    kind = 'mm' if target['kind'] == 'mm' else ('shipped' if 'shipped' in target else 'module')
-    out.probe({'mm': 'mm_target', 'shipped': 'shipped_target', 'module': 'module_target'}[kind])
+    kind = 'mm' if target['kind'] == 'mm' else 'k' if target['kind'] == 'k' else ('shipped' if 'shipped' in target else 'module')
+    out.probe({'mm': 'mm_target', 'shipped': 'shipped_target', 'module': 'module_target', 'k': 'k_target'}[kind])
     if target.get('tmv', 0) >= 2: out.probe('mm_target_mvars_ge2')
     job = {'op': 'serialise', 'target': target, 'formats': ['binary', 'pretty'], 'optimize': sc['optimize'], 'history': [], 'noise': 0}
     ref = ctx.ask(0, job)
@@ -183,6 +191,7 @@ def shrink(sc):
 def describe(sc):
     def sp(s):
         if 'text' in s: return {'kind': 'mm', 'text': s['text'].split('\n')[-6:]}
+        if 'scenario' in s: return {'kind': 'k', 'rules': len(s['scenario']['rules']), 'events': len(s['scenario']['events'])}
         if 'recipe' in s: return {'kind': 'module', 'steps': len(s['recipe']['steps']), 'lib': s['recipe']['lib']}
         return s
     d = {'target': sp(sc['target']), 'optimize': sc.get('optimize')}
